@@ -381,7 +381,8 @@ fn expand<const L: usize>(
                     let n0 = b.get_trades().len();
                     for bid in [true, false] {
                         b.set_time(b.get_time() + 1);
-                        let v = if bid { b.ask_vol() } else { b.bid_vol() } + 1;
+                        b.reset_trade_vol();
+                        let v = if bid { b.ask_vol() } else { b.bid_vol() }.saturating_add(1);
                         let _ = b.create_and_place_order(side_of(bid), v, 9, None);
                     }
                     (
@@ -540,12 +541,24 @@ pub fn run<const L: usize>(cfg: &RunCfg) -> RunStats {
                         sh.stop.store(true, Ordering::Relaxed);
                     }
                 }
+                // memory: a matching loop that allocates without terminating shows up here first;
+                // the execution that has been running longest is the witness
+                let mem_exhausted = util::rss_bytes() > util::env_u64("VERIF_RSS_GB", 12) * (1 << 30) / 2;
+                let mut oldest: Option<(Instant, Vec<Step>)> = None;
                 for sl in &sh.slots {
                     let g = sl.lock().unwrap();
                     if let Some((t, h)) = &*g {
                         if t.elapsed() > Duration::from_secs(hang_s) {
                             *sh.hang.lock().unwrap() = Some(h.clone());
                         }
+                        if oldest.as_ref().map_or(true, |o| *t < o.0) {
+                            oldest = Some((*t, h.clone()));
+                        }
+                    }
+                }
+                if mem_exhausted {
+                    if let Some((_, h)) = oldest {
+                        *sh.hang.lock().unwrap() = Some(h);
                     }
                 }
                 if sh.hang.lock().unwrap().is_some() {
